@@ -111,9 +111,14 @@ def impl(case):
             return {"eval_err": _err(e)}
     # selector
     sel = {}
+    nout = case.get("nout", 2)
     for lab, ax, bx, ay, by in case["sel"]:
-        sel[lab] = (models.Scale(float(C.w2q(ax))) | models.Shift(float(C.w2q(bx)))) & (models.Scale(float(C.w2q(ay))) | models.Shift(float(C.w2q(by))))
+        if nout == 1:   # transforms with a single output
+            sel[lab] = models.Mapping((0,), n_inputs=2) | models.Scale(float(C.w2q(ax))) | models.Shift(float(C.w2q(bx)))
+        else:
+            sel[lab] = (models.Scale(float(C.w2q(ax))) | models.Shift(float(C.w2q(bx)))) & (models.Scale(float(C.w2q(ay))) | models.Shift(float(C.w2q(by))))
     undef = float("nan") if case["undef"] == "nan" else float(case["undef"])
+    undef_arg = int(undef) if case.get("undef_int") else undef     # an integer undefined value must not make the outputs integer
     if case["mapper"] == "array":
         lm = selector.LabelMapperArray(np.array(case["mask"]))
     else:
@@ -121,23 +126,25 @@ def impl(case):
         tab = models.Tabular1D(points=np.arange(len(case["xlabels"]), dtype=float), lookup_table=np.array(case["xlabels"], dtype=float),
                                method="nearest", bounds_error=False, fill_value=np.nan)
         lm = selector.LabelMapper(("x", "y"), tab, inputs_mapping=models.Mapping((0,), n_inputs=2))
-    rs = selector.RegionsSelector(("x", "y"), ("a", "b"), selector=sel, label_mapper=lm, undefined_transform_value=undef)
+    rs = selector.RegionsSelector(("x", "y"), ("a", "b")[:nout], selector=sel, label_mapper=lm, undefined_transform_value=undef_arg)
     pts = case["pts"]
     shape = tuple(case["shape"])
     xs = np.array([p[0] for p in pts], dtype=float).reshape(shape)
     ys = np.array([p[1] for p in pts], dtype=float).reshape(shape)
     res = {}
     try:
-        a, b = rs(xs, ys)
-        res["out_shape"] = [list(np.shape(a)), list(np.shape(b))]
-        res["out"] = [[_c(u, undef), _c(v, undef)] for u, v in zip(np.asarray(a).ravel(), np.asarray(b).ravel())]
+        r = rs(xs, ys)
+        r = r if isinstance(r, (tuple, list)) else (r,)
+        res["out_shape"] = [list(np.shape(v)) for v in r]
+        res["out"] = [[_c(v, undef) for v in row] for row in zip(*[np.asarray(v).ravel() for v in r])]
     except Exception as e:
         res["err"] = _err(e)
     per = []
     for x, y in pts:
         try:
-            a, b = rs(float(x), float(y))
-            per.append([_c(a, undef), _c(b, undef)])
+            r = rs(float(x), float(y))
+            r = r if isinstance(r, (tuple, list)) else (r,)
+            per.append([_c(v, undef) for v in r])
         except Exception as e:
             per.append({"err": _err(e)})
     res["per"] = per
@@ -239,14 +246,14 @@ def oracle(case, res):
     for (x, y), lab, o, p in zip(case["pts"], labels, res["out"], res["per"]):
         if lab != 0 and lab in table:
             ax, bx, ay, by = [C.w2q(v) for v in table[lab]]
-            want = [C.q2w(ax * Fraction(x) + bx), C.q2w(ay * Fraction(y) + by)]
+            want = [C.q2w(ax * Fraction(x) + bx), C.q2w(ay * Fraction(y) + by)][:case.get("nout", 2)]
         else:
-            want = ["undef", "undef"]
+            want = ["undef", "undef"][:case.get("nout", 2)]
         if o != want:
             out.append(("selector", "point (%s,%s) has label %s: expected outputs %s, array call gives %s" % (x, y, lab, want, o)))
         if p != want:
             out.append(("selector_scalar", "point (%s,%s) has label %s: expected outputs %s, scalar call gives %s" % (x, y, lab, want, p)))
-    if res["out_shape"] != [list(case["shape"])] * 2:
+    if res["out_shape"] != [list(case["shape"])] * case.get("nout", 2):
         out.append(("selector_shape", "input shape %s, output shapes %s" % (case["shape"], res["out_shape"])))
     for lab, r in zip(case["set_input"], res["set_input"]):
         if (lab in table) != (r == "same") or (lab not in table and r != "valueErr"):
@@ -300,7 +307,7 @@ def compare(case, res, resp):
         if res.get("labels") != resp["ok"]:
             return "dict labels impl %s model %s (keys %s xs %s)" % (res.get("labels"), resp["ok"], case["keys"], case["xs"])
         return None
-    mo = [["undef", "undef"] if v == "undef" else v for v in resp["ok"]]
+    mo = [(["undef", "undef"] if v == "undef" else v)[:case.get("nout", 2)] for v in resp["ok"]]
     if res["out"] != mo:
         return "selector outputs impl %s model %s" % (res["out"], mo)
     if res.get("labels") != _expected_labels(case):
@@ -332,6 +339,9 @@ def stats(case, res, st):
     if case["kind"] == "selector":
         st["mapper_" + case["mapper"]] += 1
         st["undef_" + str(case["undef"])] += 1
+        st["nout_%d" % case.get("nout", 2)] += 1
+        if case.get("undef_int"):
+            st["undef_given_as_int"] += 1
         st["shape_%dd" % len(case["shape"])] += 1
 
 
@@ -389,8 +399,12 @@ def gen(rng, tier):
         n = rng.randint(1, 5)
         ks = sorted(rng.sample(range(-40, 40), n))
         keys = [[C.q2w(Fraction(k_, 2)), i + 1] for i, k_ in enumerate(ks)]
-        rng.shuffle(keys)
         atol = rng.choice([Fraction(1, 8), Fraction(1, 1024), Fraction(1, 2 ** 20)])
+        if rng.random() < 0.3:
+            # two keys closer than the tolerance: an input near both must get the same label alone and in any batch
+            k0 = C.w2q(keys[0][0])
+            keys.append([C.q2w(k0 + atol / 2), len(keys) + 1])
+        rng.shuffle(keys)
         xs = []
         for _x in range(8):
             kk = C.w2q(rng.choice(keys)[0])
@@ -404,6 +418,10 @@ def gen(rng, tier):
         sel = [[l, C.q2w(rng.choice([1, 2, -1, Fraction(1, 2)])), rng.randint(-9, 9), C.q2w(rng.choice([1, 2, 4, -2])), rng.randint(-9, 9)] for l in have]
         case = {"kind": "selector", "mapper": mapper, "sel": sel, "undef": rng.choice(["nan", "nan", -9999.25, 12345.0625]),
                 "set_input": rng.sample([0, 1, 2, 3, 4, 9], 3)}
+        if rng.random() < 0.25:
+            case["nout"] = 1
+        if rng.random() < 0.25:
+            case["undef"], case["undef_int"] = -100.0, True
         npts = rng.choice([1, 4, 6, 8])
         if mapper == "array":
             ny, nx = rng.randint(2, 7), rng.randint(2, 8)
